@@ -205,6 +205,11 @@ theorem stepC_erase (P : Params K) (c : CSys K) (h : Coherent c) (op : Op K) :
     · simp [stepC, step, CSys.erase]
     · intro r hr
       exact h r hr
+  | editPbc k v =>
+    refine ⟨?_, rfl, ?_⟩
+    · simp [stepC, step, CSys.erase]
+    · intro r hr
+      exact h r hr
   | setPos p =>
     refine ⟨?_, rfl, ?_⟩
     · simp [stepC, step, CSys.erase]
@@ -396,6 +401,7 @@ theorem clean_stepC (P : Params K) (h0 : 0 ≤ P.tiny) (h1 : P.tiny < 1) (c : CS
   | setVects v => exact zeroSmall_idem P.tiny h0 h1 v
   | setOrigin o => exact hc
   | setPbc p => exact hc
+  | editPbc k v => exact hc
   | setPos p => exact hc
 
 theorem clean_runC (P : Params K) (h0 : 0 ≤ P.tiny) (h1 : P.tiny < 1) (ops : List (Op K)) (c : CSys K)
